@@ -33,8 +33,12 @@ def run():
     ck = core.Check('C07', 'model_checking',
                     'documents typed by spec/DocGen.tla restricted to paragraphs, headings, definitions and containers: exhaustive over <= 3 blocks at nesting <= 1 '
                     '(every placement of 1-2 definitions relative to 1-2 uses, inside and outside quotes and list items), plus simulated documents of up to 9 blocks '
-                    'at nesting <= 3 with the full label / destination / title ranges; distinct = distinct source texts; non-trivial = has a definition and a reference')
+                    'at nesting <= 3 with the full label / destination / title ranges; plus every line sequence of <= 3 (4) lines over three alphabets of definition lines '
+                    '(destination or title on the next line, unclosed titles, underlines and block starts after a definition) read by spec/BlockParse.tla; distinct = distinct source texts; non-trivial = has a definition and a reference')
     docs = docgen.documents(ck, 'refs')
+    from . import blockparse
+    # every short line sequence over the alphabets that hold definitions, read by spec/BlockParse.tla (HTML and definition table)
+    docs = docs + blockparse.documents(ck, 3 if ck.tier == 'quick' else 4, laws=False, only=['R1', 'R2', 'R3'])
     chunk = 400
     jobs = [docs[a:a + chunk] for a in range(0, len(docs), chunk)]
     ctx = mp.get_context('fork')
